@@ -91,6 +91,8 @@ def run(ck):
     # compressFile() opens <rotated name>.gz for writing, which truncates: the rotated name must be one no earlier rotation has used. That is the
     # next-index rule over a scan that sees every name the writer produces (shared with C05-O6 / C09-O2 / C09-O3)
     from rules.c09 import next_index, name_scheme
+    from rules.c06 import name_pattern
+    name_pattern(ck, S, fi, "C10-O3", date_is_class=False)     # ... over a listing that leaves no rotated file out (no wildcard name filter built from the file name)
     next_index(ck, S, "C10-O3")
     name_scheme(ck, S, "C10-O3")
     # ---- O4
